@@ -29,38 +29,38 @@ namespace Rtosc.CallGraph
 /-- The public realtime API of the property statement (building, measuring, reading messages and bundles,
 matching, dispatch, default reply/broadcast forwarding, ThreadLink write/read/hasNext), by mangled name.
 Every one of them must be a node of each generated graph AND an entry. -/
-def requiredEntries : List String := [
-  "rtosc_message", "rtosc_vmessage", "rtosc_amessage", "rtosc_message_length",
-  "rtosc_message_ring_length", "rtosc_valid_message_p", "rtosc_argument_string",
-  "rtosc_narguments", "rtosc_type", "rtosc_argument", "rtosc_itr_begin", "rtosc_itr_next",
-  "rtosc_itr_end", "rtosc_bundle", "rtosc_bundle_elements", "rtosc_bundle_fetch",
-  "rtosc_bundle_size", "rtosc_bundle_p", "rtosc_bundle_timetag", "rtosc_match",
-  "rtosc_match_path", "rtosc_match_options",
-  "_ZNK5rtosc5Ports8dispatchEPKcRNS_6RtDataEb",
-  "_ZN5rtosc6RtData5replyEPKcS2_z", "_ZN5rtosc6RtData5replyEPKc",
-  "_ZN5rtosc6RtData9broadcastEPKcS2_z", "_ZN5rtosc6RtData9broadcastEPKc",
-  "_ZN5rtosc10ThreadLink5writeEPKcS2_z", "_ZN5rtosc10ThreadLink10writeArrayEPKcS2_PK11rtosc_arg_t",
-  "_ZN5rtosc10ThreadLink9raw_writeEPKc", "_ZNK5rtosc10ThreadLink7hasNextEb",
-  "_ZNK5rtosc10ThreadLink7hasNextEv", "_ZNK5rtosc10ThreadLink16hasNextLookaheadEv",
-  "_ZN5rtosc10ThreadLink4readEb", "_ZN5rtosc10ThreadLink4readEv",
-  "_ZN5rtosc10ThreadLink14read_lookaheadEv", "_ZNK5rtosc10ThreadLink4peakEv"]
+def requiredEntries : List Name := [
+  name! "rtosc_message", name! "rtosc_vmessage", name! "rtosc_amessage", name! "rtosc_message_length",
+  name! "rtosc_message_ring_length", name! "rtosc_valid_message_p", name! "rtosc_argument_string",
+  name! "rtosc_narguments", name! "rtosc_type", name! "rtosc_argument", name! "rtosc_itr_begin", name! "rtosc_itr_next",
+  name! "rtosc_itr_end", name! "rtosc_bundle", name! "rtosc_bundle_elements", name! "rtosc_bundle_fetch",
+  name! "rtosc_bundle_size", name! "rtosc_bundle_p", name! "rtosc_bundle_timetag", name! "rtosc_match",
+  name! "rtosc_match_path", name! "rtosc_match_options",
+  name! "_ZNK5rtosc5Ports8dispatchEPKcRNS_6RtDataEb",
+  name! "_ZN5rtosc6RtData5replyEPKcS2_z", name! "_ZN5rtosc6RtData5replyEPKc",
+  name! "_ZN5rtosc6RtData9broadcastEPKcS2_z", name! "_ZN5rtosc6RtData9broadcastEPKc",
+  name! "_ZN5rtosc10ThreadLink5writeEPKcS2_z", name! "_ZN5rtosc10ThreadLink10writeArrayEPKcS2_PK11rtosc_arg_t",
+  name! "_ZN5rtosc10ThreadLink9raw_writeEPKc", name! "_ZNK5rtosc10ThreadLink7hasNextEb",
+  name! "_ZNK5rtosc10ThreadLink7hasNextEv", name! "_ZNK5rtosc10ThreadLink16hasNextLookaheadEv",
+  name! "_ZN5rtosc10ThreadLink4readEb", name! "_ZN5rtosc10ThreadLink4readEv",
+  name! "_ZN5rtosc10ThreadLink14read_lookaheadEv", name! "_ZNK5rtosc10ThreadLink4peakEv"]
 
 /-- pseudo nodes of the extractor: always present, always forbidden -/
-def pseudoNodes : List String := [
-  "<indirect call with no address-taken candidate>", "<inline asm>", "<call the extractor could not parse>",
-  "<atomic read-modify-write instruction>"]
+def pseudoNodes : List Name := [
+  name! "<indirect call with no address-taken candidate>", name! "<inline asm>", name! "<call the extractor could not parse>",
+  name! "<atomic read-modify-write instruction>"]
 
 /-- names of the `observe_at` clause (allocator, deallocator, operator new/delete, pthread mutex) and of the
 exception primitives: a node carrying one of these names must be in the forbidden set -/
-def forbiddenNames : List String := pseudoNodes ++ [
-  "malloc", "calloc", "realloc", "free", "posix_memalign", "aligned_alloc", "memalign", "valloc", "strdup",
-  "_Znwm", "_Znam", "_ZnwmRKSt9nothrow_t", "_ZnamRKSt9nothrow_t", "_ZnwmSt11align_val_t",
-  "_ZdlPv", "_ZdaPv", "_ZdlPvm", "_ZdaPvm", "_ZdlPvSt11align_val_t",
-  "pthread_mutex_lock", "pthread_mutex_trylock", "pthread_mutex_timedlock", "pthread_mutex_unlock",
-  "pthread_rwlock_rdlock", "pthread_rwlock_wrlock", "pthread_cond_wait", "pthread_spin_lock",
-  "_ZNSt5mutex4lockEv", "__cxa_guard_acquire",
-  "__cxa_allocate_exception", "__cxa_throw", "_ZSt25__throw_bad_function_callv", "_ZSt17__throw_bad_allocv",
-  "_ZSt20__throw_length_errorPKc", "_ZSt20__throw_out_of_rangePKc", "_ZSt24__throw_out_of_range_fmtPKcz"]
+def forbiddenNames : List Name := pseudoNodes ++ [
+  name! "malloc", name! "calloc", name! "realloc", name! "free", name! "posix_memalign", name! "aligned_alloc", name! "memalign", name! "valloc", name! "strdup",
+  name! "_Znwm", name! "_Znam", name! "_ZnwmRKSt9nothrow_t", name! "_ZnamRKSt9nothrow_t", name! "_ZnwmSt11align_val_t",
+  name! "_ZdlPv", name! "_ZdaPv", name! "_ZdlPvm", name! "_ZdaPvm", name! "_ZdlPvSt11align_val_t",
+  name! "pthread_mutex_lock", name! "pthread_mutex_trylock", name! "pthread_mutex_timedlock", name! "pthread_mutex_unlock",
+  name! "pthread_rwlock_rdlock", name! "pthread_rwlock_wrlock", name! "pthread_cond_wait", name! "pthread_spin_lock",
+  name! "_ZNSt5mutex4lockEv", name! "__cxa_guard_acquire",
+  name! "__cxa_allocate_exception", name! "__cxa_throw", name! "_ZSt25__throw_bad_function_callv", name! "_ZSt17__throw_bad_allocv",
+  name! "_ZSt20__throw_length_errorPKc", name! "_ZSt20__throw_out_of_rangePKc", name! "_ZSt24__throw_out_of_range_fmtPKcz"]
 
 /-! ## configuration `min` (c++11, -O1): `Gen.graph` -/
 
@@ -157,8 +157,8 @@ example : (Gen.graph.edges.any fun p => Gen.graph.forbidden.contains p.2) = true
     (Gen17.graph.edges.any fun p => Gen17.graph.forbidden.contains p.2) = true := by decide +kernel
 
 /-- the allocator really is a node of both graphs (so `…_forbidden_names_pinned` is not about absent names) -/
-example : (["_Znwm", "_ZdlPv"].all fun s => Gen.graph.nodeNames.contains s) = true ∧
-    (["_Znwm"].all fun s => Gen17.graph.nodeNames.contains s) = true := by decide +kernel
+example : ([name! "_Znwm", name! "_ZdlPv"].all fun s => Gen.graph.nodeNames.contains s) = true ∧
+    ([name! "_Znwm"].all fun s => Gen17.graph.nodeNames.contains s) = true := by decide +kernel
 
 /-- the certificates are not everything: some defined function lies outside of them -/
 example : ((List.range Gen.graph.numNodes).any fun n => !Gen.graph.cert.testBit n && !Gen.graph.externals.contains n) = true ∧
